@@ -33,7 +33,7 @@ theorem export_eq_hardEval_nodes {V : Type} {g0 g : Graph} {win : String → Nat
 /-- **C03, headline**: the exported network's output equals the SuperNet's output under hard
 selection, for all programs, all winner assignments, all inputs, abstract leaf semantics. -/
 theorem export_eq_hardEval {V : Type} {g0 g : Graph} {win : String → Nat} (hwf : WF g0)
-    (hio : IOSane g0) (hout : (g0.nd (g0.length - 1)).op = .output)
+    (hout : (g0.nd (g0.length - 1)).op = .output)
     (he : exportGraph win g0 = some g) (En : Env V) (win' : String → Nat) :
     netOut En win' g = netOut En win g0 := by
   have sp := exportGraph_spec hwf he
@@ -42,60 +42,54 @@ theorem export_eq_hardEval {V : Type} {g0 g : Graph} {win : String → Nat} (hwf
     rw [nd_of_ge g0 _ (by omega)] at hout; cases hout
   unfold netOut
   rw [sp.len]
-  exact sp.sim En hwf.1 win' _ (sp.output_live hwf.1 hio _ hpos hout)
+  exact sp.sim En hwf.1 win' _ (sp.outLive _ hpos hout)
 
 /-- every choice block is replaced: no choice node is left in the exported graph -/
 theorem export_has_no_choice_left {g0 g : Graph} {win : String → Nat} (hwf : WF g0)
     (he : exportGraph win g0 = some g) (i : Nat) : (g.nd i).isCombine = false :=
   (exportGraph_spec hwf he).plain i
 
-/-- export does not raise on graphs traced from `SuperNetModule`s (winner index in range, branch
-outputs feed their combiner only) — whatever the branches end in. -/
-theorem export_succeeds {g0 : Graph} {win : String → Nat} (hwf : WF g0) (hd : Discipline win g0) :
+/-- export never raises, whatever the branches contain or end in (functional tails, statements
+whose result is unused, values with other users inside the branch, ops fx regards as impure):
+the only failure left is a winner index that is not a branch. -/
+theorem export_succeeds {g0 : Graph} {win : String → Nat} (hwf : WF g0) (hr : WinInRange win g0) :
     ∃ g, exportGraph win g0 = some g :=
-  exportGraph_isSome hwf hd
+  exportGraph_isSome hwf hr
 
-/-- "all other branches are gone", general form: the (resolved) output node of every branch other
-than the winner's is erased, for every combiner node (nested blocks included). -/
-theorem export_drops_losers {g0 g : Graph} {win : String → Nat} (hwf : WF g0)
-    (he : exportGraph win g0 = some g) (n : Nat) (hn : (g0.nd n).isCombine = true) (a0 : Nat)
-    (ha0 : a0 ∈ (g0.nd n).args) (hne : res win g0 a0 ≠ res win g0 n) :
-    (g.nd (res win g0 a0)).live = false :=
-  (exportGraph_spec hwf he).lost n hn a0 ha0 hne
+/-- "all other branches are gone", one visit of the loop: the output node of a discarded branch —
+any node that fed this combiner only and is neither a placeholder nor an output — is erased … -/
+theorem export_drops_discarded_output {win : String → Nat} {g g' : Graph} {k : Nat} {c : String}
+    {best o : Nat} (hs : SSA g) (hop : (g.nd k).op = .combine c)
+    (hb : (g.nd k).args[win c]? = some best) (ho : o ∈ (g.nd k).args) (hne : o ≠ best)
+    (hown : ∀ j, o ∈ (g.nd j).args → j = k) (hnin : isInput (g.nd o) = false)
+    (hnout : (g.nd o).op ≠ .output) (he : exportCombiner win g k = some g') :
+    (Graph.nd g' o).live = false :=
+  exportCombiner_drops_discarded hs hop hb ho hne hown hnin hnout he
 
-/-- "all other branches are gone" for flat blocks: every branch output other than the winner's is
-erased. -/
-theorem export_drops_losers_flat {g0 g : Graph} {win : String → Nat} (hwf : WF g0)
-    (hd : Discipline win g0) (he : exportGraph win g0 = some g) (n : Nat) (c : String)
-    (hop : (g0.nd n).op = .combine c) (o : Nat) (ho : o ∈ (g0.nd n).args)
-    (hne : some o ≠ (g0.nd n).args[win c]?) : (g.nd o).live = false := by
-  have hn := (isCombine_iff _).2 ⟨c, hop⟩
-  obtain ⟨b, hb, hres⟩ := hd.res_combine hwf.1 hop
-  have hro : res win g0 o = o := res_of_not_combine win g0 o (hd.flat n hn o ho)
-  have := export_drops_losers hwf he n hn o ho (by rw [hro, hres]; intro h; exact hne (h ▸ hb.symm))
-  rwa [hro] at this
+/-- … together with everything computed from a member of the discarded branches (statements whose
+result is unused, impure ops included): the erased set is closed under users, … -/
+theorem discarded_branch_closed_under_users {g : Graph} (hs : SSA g) (disc : List Nat) {a u : Nat}
+    (ha : a ∈ (g.nd u).args) (hra : inRegion g disc a = true) : inRegion g disc u = true :=
+  inRegion_user hs disc ha hra
 
-/-- nothing dangles: every surviving node is a placeholder or (transitively) feeds the output —
-a node whose only consumers were erased does not survive.  Needs `PureLeaves`: no function that fx
-regards as impure in the graph (see `impure_op_keeps_discarded_branch` below). -/
-theorem export_survivors_feed_output {g0 g : Graph} {win : String → Nat} (hwf : WF g0) (hio : IOSane g0)
-    (hpure : PureLeaves g0) (he : exportGraph win g0 = some g) (i : Nat) (hl : (g.nd i).live = true) :
-    (∃ k, (g.nd i).op = .input k) ∨ FeedsOutput g i :=
-  (exportGraph_spec hwf he).feeds hwf.1 hio hpure i hl
+/-- … while nothing that (still) reaches an output is ever a member: only dead ends are erased. -/
+theorem discarded_branch_never_feeds_output {g : Graph} (hs : SSA g) (disc : List Nat) (i : Nat)
+    (h : inRegion g disc i = true) : alive g i = false :=
+  inRegion_not_alive hs disc i h
 
-/-- **exactly** the arg-max branches: a node other than a placeholder survives iff it is kept by the
-rule "outputs are kept; the arguments of a kept node are kept, a combiner argument standing for
-its winner's output" (`Keeps`) — a rule read off the SuperNet and the winners alone. -/
-theorem export_keeps_exactly {g0 g : Graph} {win : String → Nat} (hwf : WF g0) (hio : IOSane g0)
-    (hpure : PureLeaves g0) (he : exportGraph win g0 = some g) (i : Nat) (hi : i < g0.length)
-    (hni : ∀ k, (g0.nd i).op ≠ .input k) : (g.nd i).live = true ↔ Keeps win g0 i := by
-  have sp := exportGraph_spec hwf he
-  constructor
-  · intro hl
-    rcases sp.feeds hwf.1 hio hpure i hl with ⟨k, hk⟩ | hf
-    · rw [sp.node_eq i hl] at hk; exact absurd hk (hni k)
-    · exact sp.feeds_keeps i hf
-  · intro hk; exact sp.keeps_live hwf.1 hio i hk hi
+/-- what a visit has erased stays erased until the end of export -/
+theorem export_erased_stays_erased {win : String → Nat} (t k : Nat) {g g' : Graph} {i : Nat}
+    (he : exportLoop win t k g = some g') (hd : (g.nd i).live = false) :
+    (Graph.nd g' i).live = false :=
+  exportLoop_mono t k he hd
+
+/-- everything the hard-selection output depends on is kept: outputs, and the arguments of kept
+nodes, a combiner argument standing for its winner's output (`Keeps`).  Equivalently: export only
+removes nodes the output of the selected architecture does not depend on. -/
+theorem export_keeps_what_the_output_needs {g0 g : Graph} {win : String → Nat} (hwf : WF g0)
+    (he : exportGraph win g0 = some g) (i : Nat) (hi : i < g0.length) (hk : Keeps win g0 i) :
+    (g.nd i).live = true :=
+  (exportGraph_spec hwf he).keeps_live i hk hi
 
 /-- what a surviving node looks like: the original op, and every choice among its arguments
 replaced by the (resolved) output of the winning branch. -/
@@ -117,8 +111,8 @@ theorem outside_untouched {g0 g : Graph} {win : String → Nat} (hwf : WF g0)
     exact res_of_not_combine win g0 a (hargs a ha)
   rw [this]
 
-/-- … and such a node is there whenever it is needed: a node that feeds the output of the SuperNet
-through non-choice nodes only is kept, whatever the winners are. -/
+/-- … and such a node is there whenever it is needed: a non-choice argument of a surviving node
+survives, whatever the winners are. -/
 theorem outside_kept {g0 g : Graph} {win : String → Nat} (hwf : WF g0)
     (he : exportGraph win g0 = some g) (a j : Nat) (hj : (g.nd j).live = true)
     (ha : a ∈ (g0.nd j).args) (hna : (g0.nd a).isCombine = false) : (g.nd a).live = true := by
@@ -146,10 +140,8 @@ def twice : Graph := [
   Node.leaf ⟨.module, "fc"⟩ [10],
   Node.output 11]
 
-example : WF twice ∧ IOSane twice ∧ Discipline (fun _ => 1) twice ∧ PureLeaves twice ∧
-    (twice.nd (twice.length - 1)).op = .output :=
-  ⟨wfB_sound (by decide +kernel), ioSaneB_sound (by decide +kernel),
-   disciplineB_sound (by decide +kernel), pureLeavesB_sound (by decide +kernel), by decide +kernel⟩
+example : WF twice ∧ WinInRange (fun _ => 1) twice ∧ (twice.nd (twice.length - 1)).op = .output :=
+  ⟨wfB_sound (by decide +kernel), winInRangeB_sound (by decide +kernel), by decide +kernel⟩
 
 /-- on it the (positional) export keeps the functional-tail branch at both call sites … -/
 example : exportGraph (fun _ => 1) twice = some [
@@ -181,28 +173,44 @@ theorem pinned_rule_exports_wrong_branch :
     (exportGraph (fun _ => 1) eleven).map moduleTargets = some ["b.sn_branches.1.conv"] := by
   decide +kernel
 
-/-! ### impure ops: "all other branches are gone" needs `PureLeaves` -/
+/-! ### statements whose result is unused, side users, impure ops -/
 
-/-- a block whose second branch is conv → random gate (`torch.bernoulli`, impure for fx) → conv -/
-def stochasticLoser : Graph := [
+/-- stem, an in-place activation called as a statement (`self.act(h)`, result unused), then a block:
+branch 0 = conv followed by an in-place statement (`y.clamp_(…)`), branch 1 = conv, an auxiliary
+layer whose result is discarded, a random gate (`torch.bernoulli`, impure for fx) and a second conv -/
+def statements : Graph := [
   Node.input 0,
-  Node.leaf ⟨.module, "b.sn_branches.0"⟩ [0],
-  Node.leaf ⟨.module, "b.sn_branches.1.c1"⟩ [0],
-  Node.leaf ⟨.impureFunction, "torch.bernoulli"⟩ [2],
-  Node.leaf ⟨.function, "mul"⟩ [2, 3],
-  Node.leaf ⟨.module, "b.sn_branches.1.c2"⟩ [4],
-  Node.combine "b.sn_combiner" [1, 5],
-  Node.output 6]
+  Node.leaf ⟨.module, "stem"⟩ [0],
+  Node.leaf ⟨.module, "act"⟩ [1],
+  Node.leaf ⟨.module, "b.sn_branches.0.conv"⟩ [1],
+  Node.leaf ⟨.method, "clamp_"⟩ [3],
+  Node.leaf ⟨.module, "b.sn_branches.1.c1"⟩ [1],
+  Node.leaf ⟨.module, "b.sn_branches.1.aux"⟩ [5],
+  Node.leaf ⟨.impureFunction, "torch.bernoulli"⟩ [5],
+  Node.leaf ⟨.function, "mul"⟩ [5, 7],
+  Node.leaf ⟨.module, "b.sn_branches.1.c2"⟩ [8],
+  Node.combine "b.sn_combiner" [3, 9],
+  Node.output 10]
 
-/-- with branch 0 winning, the discarded branch is NOT gone: its output node is erased
-(`export_drops_losers`), but dead-code elimination keeps the impure op and the layer feeding it —
-`b.sn_branches.1.c1` stays in the exported network although nothing it computes reaches the output.
-`export_survivors_feed_output` and `export_keeps_exactly` therefore carry `PureLeaves`; the output
-is still the hard evaluation (`export_eq_hardEval` needs no such hypothesis). -/
-theorem impure_op_keeps_discarded_branch :
-    (exportGraph (fun _ => 0) stochasticLoser).map moduleTargets =
-      some ["b.sn_branches.0", "b.sn_branches.1.c1"] ∧
-    pureLeavesB stochasticLoser = false := by
+/-- export keeps the statements outside the block and inside the winning branch, and erases the
+discarded branch entirely — auxiliary layer, impure op and all — for either winner. -/
+theorem statements_survive_and_discarded_branch_is_gone :
+    (exportGraph (fun _ => 0) statements).map moduleTargets =
+      some ["stem", "act", "b.sn_branches.0.conv"] ∧
+    (exportGraph (fun _ => 0) statements).map (fun g => (g.nd 4).live) = some true ∧
+    (exportGraph (fun _ => 1) statements).map moduleTargets =
+      some ["stem", "act", "b.sn_branches.1.c1", "b.sn_branches.1.aux", "b.sn_branches.1.c2"] := by
+  decide +kernel
+
+/-- the rule before the fix (discarded outputs erased by hand, then fx dead-code elimination): with
+branch 0 winning it drops both in-place statements and keeps a layer of the discarded branch alive
+through the impure op; with branch 1 winning it raises, because the discarded output still has a
+user (the in-place statement). -/
+theorem dce_rule_drops_statements_keeps_impure_and_raises :
+    (exportGraphDce (fun _ => 0) statements).map moduleTargets =
+      some ["stem", "b.sn_branches.0.conv", "b.sn_branches.1.c1"] ∧
+    (exportGraphDce (fun _ => 0) statements).map (fun g => (g.nd 4).live) = some false ∧
+    exportGraphDce (fun _ => 1) statements = none := by
   decide +kernel
 
 /-! ### "for every value of the selection coefficients": export reads the current alpha -/
